@@ -141,10 +141,10 @@ theorem conns_pass1One (sc : Scene) (a : Action) : (pass1One sc a).conns = sc.co
 theorem conns_pass2One (sc : Scene) (a : Action) : (pass2One sc a).conns = sc.conns := by
   unfold pass2One; cases a.kind <;> rfl
 
-theorem Conn.setEnd_id (c : Conn) (e : End) (p : Pt) : (c.setEnd e p).id = c.id := by
+theorem Conn.setEnd_id (c : Conn) (e : End) (p : CEnd) : (c.setEnd e p).id = c.id := by
   cases e <;> rfl
 
-theorem pass3_fold_obsts (us : List (End × Pt)) (i : Nat) (sc : Scene) :
+theorem pass3_fold_obsts (us : List (End × CEnd)) (i : Nat) (sc : Scene) :
     (us.foldl (fun sc u => mapConn sc i fun c => c.setEnd u.1 u.2) sc).obsts = sc.obsts := by
   induction us generalizing sc with
   | nil => rfl
@@ -153,7 +153,7 @@ theorem pass3_fold_obsts (us : List (End × Pt)) (i : Nat) (sc : Scene) :
 theorem obsts_pass3One (sc : Scene) (a : Action) : (pass3One sc a).obsts = sc.obsts := by
   unfold pass3One; cases a.kind <;> first | rfl | exact pass3_fold_obsts _ _ _
 
-theorem pass3_fold_find (us : List (End × Pt)) (i c : Nat) (sc : Scene) :
+theorem pass3_fold_find (us : List (End × CEnd)) (i c : Nat) (sc : Scene) :
     findConn (us.foldl (fun sc u => mapConn sc i fun k => k.setEnd u.1 u.2) sc) c
       = if c = i then (findConn sc c).map fun k => k.applyUpdates us else findConn sc c := by
   induction us generalizing sc with
